@@ -147,6 +147,10 @@ func c04Key(k c04Case, what string) string {
 }
 
 func c04Run(c *core.Ctx, k c04Case) {
+	if strings.HasPrefix(k.Special, "tcp-") {
+		c04RunAlign(c, k) // c04_align.go: receivers aligned to a payload nonce / the reverse direction / another connection
+		return
+	}
 	if k.Special != "" {
 		c04RunSpecial(c, k)
 		return
@@ -274,6 +278,7 @@ func c04Run(c *core.Ctx, k c04Case) {
 		c04CompareUDP(c, k, o)
 	} else {
 		c04CompareTCP(c, k, o)
+		c04CompareTCPK(c, k, o) // c04_align.go: the same stream against the key-history model (c04-tcpk, c04-feedeq, c04-leopen)
 	}
 }
 
@@ -1022,8 +1027,9 @@ func init() {
 			c.Correspondence("UDP whole run: every datagram each real endpoint's ReadFrom returned, in order, through Tamper.rxStep (parseD + session dispatch + direction test + Arq.recv; driver op c04-udp-seq): the model's delivered stream is what the sender wrote (content per segment), its length equals what the real application read once the transfer completed, and no cumulative ack of the real endpoint is ahead of what the model had accepted by then")
 			var cases []c04Case
 			cases = append(cases, c04LoadCorpus(c)...)
-			cases = append(cases, genC04Boundaries(c.Rand)...)                       // every run, before the random stream
-			cases = append(cases, genC04Random(c.Rand, c.Thorough() || c.Search)...) // a broken obligation widens the search
+			cases = append(cases, c04AlignCases(c.Rand, c.Thorough() || c.Search)...) // c04_align.go: deterministic, every run
+			cases = append(cases, genC04Boundaries(c.Rand)...)                        // every run, before the random stream
+			cases = append(cases, genC04Random(c.Rand, c.Thorough() || c.Search)...)  // a broken obligation widens the search
 			for i := 0; i < 3 && i < len(cases); i++ {
 				c.Sample(cases[i])
 			}
